@@ -10,6 +10,12 @@ from .absint import Val, MAX_CONCRETE_ITERS
 from .absint_ops import Machine
 
 
+class LateCellConflict(Exception):
+    def __init__(self, lid):
+        Exception.__init__(self, 'loop %s: a path that changes a cell assumed not loop-carried can start another iteration' % lid)
+        self.lid = lid
+
+
 def facts_word():
     from .facts import WORD
     return WORD
@@ -67,11 +73,21 @@ class LoopMachine(Machine):
         entry = st.fork()
         only = getattr(self, 'force_summary_fns', None)
         if self.force_summary and not getattr(self, 'quiet', False) and (only is None or self.fn in only):
-            return self.summarise(entry, s, cond, inc, body, cond_first)
+            return self.summarise_retry(entry, s, cond, inc, body, cond_first)
         try:
             return self.run_concrete(st, s, cond, inc, body, cond_first)
         except Undecided:
+            return self.summarise_retry(entry, s, cond, inc, body, cond_first)
+
+    def summarise_retry(self, entry, s, cond, inc, body, cond_first):
+        """The summary first assumes that a cell changed only on paths that then fail the loop condition is not loop-carried;
+        if an iteration contradicts that, the loop is summarised again with those cells carried (havocked)."""
+        keep = entry.fork()
+        try:
             return self.summarise(entry, s, cond, inc, body, cond_first)
+        except LateCellConflict as e:
+            self.no_late_loops = set(getattr(self, 'no_late_loops', ())) | {e.lid}
+            return self.summarise(keep, s, cond, inc, body, cond_first)
 
     def eval_cond_decided(self, st, cond):
         """-> [(state, bool)], raising Undecided if the domain cannot decide."""
@@ -412,6 +428,8 @@ class LoopMachine(Machine):
                             break
                         late = True
                 if not carried and cont:
+                    if late and lid in getattr(self, 'no_late_loops', ()):
+                        continue          # (second attempt for this loop: treat the cell as loop-carried after all)
                     del mods[(oid, key)]
                     if late:
                         late_cells.add((oid, key))
@@ -629,7 +647,7 @@ class LoopMachine(Machine):
                     for s3, cv in self.rval(s2.fork(), cond):
                         s_t, s_f = self.branch(s3, cv)
                         if s_t is not None and not sharp_infeasible(s_t):
-                            raise AnalysisBroken('loop %s: a path that changes a cell assumed not loop-carried can start another iteration' % lid)
+                            raise LateCellConflict(lid)
                         if s_f is not None:
                             s_f.trace = s2.trace
                             late_exits.append(s_f)
